@@ -117,6 +117,18 @@ def coq_property_obligations(pid):
     return res
 
 
+def coqchk_property(pid):
+    """Independent re-check of the compiled property file and everything it depends on (thorough tier).
+    Returns (ok, summary text)."""
+    rc, out = sh(["coqchk", "-silent", "-o", "-Q", "theories", "Verif", "-Q", "properties", "VerifProps",
+                  "VerifProps.%s" % pid], cwd=COQ, timeout=3000)
+    i = out.find("CONTEXT SUMMARY")
+    summary = " ".join(out[i:].split()) if i >= 0 else out[-1500:]
+    ok = rc == 0 and "Axioms: <none>" in summary and "type-in-type: <none>" in summary and \
+        "unsafe (co)fixpoints: <none>" in summary and "positivity is assumed: <none>" in summary
+    return ok, summary
+
+
 # ---------------------------------------------------------------- builds
 
 def build_driver():
